@@ -16,7 +16,7 @@ from __future__ import annotations
 import ast
 
 from ..effects import StateEffects
-from ..model import Program, call_name, is_self_attr, loops_to_comprehensions, norm, unroll_constant_loops, inline_private_helpers
+from ..model import Program, call_name, expand_locals, is_self_attr, loops_to_comprehensions, norm, single_assignment_locals, unroll_constant_loops, inline_private_helpers
 from ..report import AnalysisError
 
 PROP = "C09"
@@ -60,8 +60,8 @@ def cached_pairs(program: Program):
                 yield k, n, f
 
 
-def rule_r1(rep, program: Program, se: StateEffects, prop=PROP):
-    r = rep.rule("R1", "declared dependencies cover every state variable read (per concrete class x cached method, resolved under the C3 MRO)", floor=40)
+def rule_r1(rep, program: Program, se: StateEffects, prop=PROP, rule="R1"):
+    r = rep.rule(rule, "declared dependencies cover every state variable read (per concrete class x cached method, resolved under the C3 MRO)", floor=40)
     for k, n, f in cached_pairs(program):
         sp = se.state_params(f)
         if len(sp) != 1:
@@ -178,8 +178,8 @@ def filtered_copy_of(expr, what: str):
     return None
 
 
-def rule_r3(rep, program: Program):
-    r = rep.rule("R3", "ChainState.copy passes a copy of the cache dict and a copy of every variable value", floor=2)
+def rule_r3(rep, program: Program, prop=PROP, rule="R3"):
+    r = rep.rule(rule, "ChainState.copy passes a copy of the cache dict and a copy of every variable value", floor=2)
     f = program.method("ChainState", "copy")
     calls = [n for n in ast.walk(f.node) if isinstance(n, ast.Call) and norm(n.func) in ("type(self)", "ChainState", "self.__class__")]
     if len(calls) != 1:
@@ -194,9 +194,9 @@ def rule_r3(rep, program: Program):
         pass  # a filtered copy is still an independent dict: transparent (C18-R4 reports the loss)
     elif isinstance(cache, ast.IfExp) and "self._cache" in (norm(cache.body), norm(cache.orelse)):
         shared_when = norm(cache.test) if norm(cache.body) == "self._cache" else f"not ({norm(cache.test)})"
-        r.violate(PROP, f"ChainState.copy:_cache=shared-when:{shared_when[:40]}", f"copy() shares the cache dict with the original when `{shared_when}`: an assignment to the original marks the shared entries invalid, the next call on either object refills them from that object's variables, and the other object then reads values computed for different variables", node=call, file=f.file)
+        r.violate(prop, f"ChainState.copy:_cache=shared-when:{shared_when[:40]}", f"copy() shares the cache dict with the original when `{shared_when}`: an assignment to the original marks the shared entries invalid, the next call on either object refills them from that object's variables, and the other object then reads values computed for different variables", node=call, file=f.file)
     elif cache is not None and norm(cache) == "self._cache":
-        r.violate(PROP, "ChainState.copy:_cache=shared", "copy() shares the cache dict with the original: a recomputation after an assignment on one object overwrites / resurrects entries seen by the other", node=call, file=f.file)
+        r.violate(prop, "ChainState.copy:_cache=shared", "copy() shares the cache dict with the original: a recomputation after an assignment on one object overwrites / resurrects entries seen by the other", node=call, file=f.file)
     elif cache is not None and not (_is_copy_of(cache, "self._cache") or isinstance(cache, ast.Dict) or norm(cache) in ("None", "dict()")):
         msg = f"ChainState.copy: unrecognised _cache expression {norm(cache)}"
         raise AnalysisError(msg)
@@ -212,22 +212,33 @@ def rule_r3(rep, program: Program):
         built = loops_to_comprehensions(f.node.body)
         star = built.get(star.id) or single_assignment_locals(f.node).get(star.id, star)
     r.inst({"site": "ChainState.copy:variables", "expr": norm(star)})
-    ok = None
-    if isinstance(star, ast.DictComp) and len(star.generators) == 1 and norm(star.generators[0].iter) == "self._variables.items()":
-        tgt = star.generators[0].target
-        if isinstance(tgt, ast.Tuple) and len(tgt.elts) == 2:
-            valname = norm(tgt.elts[1])
-            if _is_copy_of(star.value, valname):
-                ok = True
-            elif norm(star.value) == valname:
-                ok = False
-    elif norm(star) == "self._variables" or _is_copy_of(star, "self._variables"):
-        ok = False  # dict copied at most, values shared
-    if ok is None:
-        msg = f"ChainState.copy: unrecognised variables expression {norm(star)}"
-        raise AnalysisError(msg)
-    if not ok:
-        r.violate(PROP, "ChainState.copy:variables=shared", "copy() shares the variable arrays with the original: an in-place update (state.mom -= ...) on one object changes the other without invalidating its cache", node=call, file=f.file)
+
+    def copies_values(e):
+        """True: every value is copied; False: values are shared; None: not recognised"""
+        if isinstance(e, ast.DictComp) and len(e.generators) == 1 and norm(e.generators[0].iter) == "self._variables.items()":
+            tgt = e.generators[0].target
+            if isinstance(tgt, ast.Tuple) and len(tgt.elts) == 2:
+                valname = norm(tgt.elts[1])
+                if _is_copy_of(e.value, valname):
+                    return True
+                if norm(e.value) == valname:
+                    return False
+            return None
+        if norm(e) == "self._variables" or _is_copy_of(e, "self._variables"):
+            return False  # dict copied at most, values shared
+        return None
+
+    arms = [(None, star)]
+    if isinstance(star, ast.IfExp):
+        arms = [(norm(star.test), star.body), (f"not ({norm(star.test)})", star.orelse)]
+    for cond, e in arms:
+        ok = copies_values(e)
+        if ok is None:
+            msg = f"ChainState.copy: unrecognised variables expression {norm(e)}"
+            raise AnalysisError(msg)
+        if not ok:
+            when = f" when `{cond}`" if cond else ""
+            r.violate(prop, f"ChainState.copy:variables=shared{':' + cond[:30] if cond else ''}", f"copy() shares the variable arrays with the original{when}: an in-place update (state.mom -= ...) on the copy changes the original (integrator.step works on a copy and updates it in place, so the state it was given is modified) without invalidating its cache", node=call, file=f.file)
     return r
 
 
@@ -368,9 +379,11 @@ def rule_r5(rep, program: Program, prop=PROP, rule="R5"):
     get_map = {}
     filters = {}
     built = loops_to_comprehensions(gs.body_without_docstring())  # e.g. a filtered cache built by a loop
+    gs_defs = single_assignment_locals(gs.node)
     for k, v in zip(d.keys, d.values):
         if isinstance(v, ast.Name) and v.id in built:
             v = built[v.id]
+        v = expand_locals(v, gs_defs)  # e.g. a filtered cache held in a local and consulted by another value
         if not (isinstance(k, ast.Constant) and isinstance(k.value, str)):
             msg = "ChainState.__getstate__: non-literal key"
             raise AnalysisError(msg)
@@ -630,6 +643,34 @@ def _pred_cases(pred: ast.expr, keyname: str, case: str):
         return all(vals) if isinstance(pred.op, ast.And) else any(vals)
     t = norm(pred)
     val_exprs = (f"self._cache.get({keyname})", f"self._cache[{keyname}]", f"self._cache.get({keyname}, None)")
+
+    def filtered_cache(e):
+        """e is `{k: v for k, v in self._cache.items() if ...}`: -> does it keep an entry of kind `case`?"""
+        if isinstance(e, ast.DictComp) and len(e.generators) == 1 and norm(e.generators[0].iter) == "self._cache.items()" and isinstance(e.generators[0].target, ast.Tuple) and norm(e.key) == norm(e.generators[0].target.elts[0]) and norm(e.value) == norm(e.generators[0].target.elts[1]):
+            g = e.generators[0]
+            kn, vn = (norm(x) for x in g.target.elts)
+            kept = True
+            for cond in g.ifs:
+                txt = norm(cond).replace(vn, f"self._cache[{kn}]") if vn in {n.id for n in ast.walk(cond) if isinstance(n, ast.Name)} else norm(cond)
+                kept = kept and _pred_cases(ast.parse(txt, mode="eval").body, kn, case)
+            return kept
+        return None
+
+    # a look-up in a filtered copy of the cache: the entry if the filter keeps it, else absent (None from .get)
+    if isinstance(pred, ast.Compare) and len(pred.ops) == 1:
+        left = pred.left
+        src = None
+        if isinstance(left, ast.Call) and isinstance(left.func, ast.Attribute) and left.func.attr == "get" and left.args and norm(left.args[0]) == keyname:
+            src = left.func.value
+        elif isinstance(left, ast.Subscript) and norm(left.slice) == keyname:
+            src = left.value
+        kept = filtered_cache(src) if src is not None else None
+        if kept is not None and norm(pred.comparators[0]) == "None":
+            isnone = (case == "none") or not kept
+            return isnone if isinstance(pred.ops[0], (ast.Is, ast.Eq)) else not isnone
+        if isinstance(pred.ops[0], (ast.In, ast.NotIn)) and norm(pred.left) == keyname and filtered_cache(pred.comparators[0]) is not None:
+            kept = filtered_cache(pred.comparators[0])
+            return kept if isinstance(pred.ops[0], ast.In) else not kept
     if isinstance(pred, ast.Compare) and len(pred.ops) == 1:
         l, r_ = norm(pred.left), norm(pred.comparators[0])
         if isinstance(pred.ops[0], ast.In) and l == keyname and r_ == "self._cache":
@@ -762,15 +803,15 @@ def param_mutators(program: Program):
     return out
 
 
-def rule_r7(rep, program: Program, control: bool = True):
-    r = rep.rule("R7", "no in-place mutation of a state variable array that bypasses __setattr__ (subscript store, out=, mutating method, alias +=); parameter-mutating helpers get their result assigned back", floor=2)
+def rule_r7(rep, program: Program, control: bool = True, prop=PROP, rule="R7"):
+    r = rep.rule(rule, "no in-place mutation of a state variable array that bypasses __setattr__ (subscript store, out=, mutating method, alias +=); parameter-mutating helpers get their result assigned back", floor=2)
     n_funcs = 0
     for fn in program.all_functions():
         if fn.module.name in ("mici.states",):
             continue
         n_funcs += 1
         for node, what in inplace_sites(fn):
-            r.violate(PROP, f"{fn.qualname}:{norm(node)[:70]}", f"{what}: the array is changed without going through ChainState.__setattr__, so cached values depending on it stay in the cache", node=node, file=fn.file)
+            r.violate(prop, f"{fn.qualname}:{norm(node)[:70]}", f"{what}: the array is changed without going through ChainState.__setattr__, so cached values depending on it stay in the cache", node=node, file=fn.file)
     r.inst({"functions scanned": n_funcs})
     # helpers mutating an array parameter: each call site that passes X.var must assign back to X.var
     muts = {}
@@ -799,7 +840,7 @@ def rule_r7(rep, program: Program, control: bool = True):
                             later.sort(key=lambda x: x.lineno)
                             ok = bool(later) and isinstance(later[0], ast.Assign) and len(later[0].targets) == 1 and norm(later[0].targets[0]) == norm(arg) and isinstance(later[0].value, ast.Name) and later[0].value.id == loc
                         if not ok:
-                            r.violate(PROP, f"{caller.qualname}:{norm(c)[:70]}", f"{fn.qualname} updates its parameter `{p}` in place; the call passes {norm(arg)} but does not assign the result back to it, so the array changes without invalidating the cache", node=c, file=caller.file)
+                            r.violate(prop, f"{caller.qualname}:{norm(c)[:70]}", f"{fn.qualname} updates its parameter `{p}` in place; the call passes {norm(arg)} but does not assign the result back to it, so the array changes without invalidating the cache", node=c, file=caller.file)
     if control:
         cp = Program(sources=CONTROL_SRC)
         fired = any(inplace_sites(f) for f in cp.all_functions())
